@@ -30,6 +30,8 @@ type specEnv struct {
 	pre      *State
 	cur      *State
 	post     *State // set inside old(...): the state that now(...) returns to
+	loopPre  *State // state at entry of the enclosing loop (pre(...))
+	loopBound string
 	allocPre string
 	bound    []map[string]specVal
 	lets     map[string]*Expr
@@ -692,6 +694,24 @@ func (env *specEnv) call(e *Expr) specVal {
 		case "in64":
 			x := env.tr(args[0])
 			return ghost("(and (<= (- 9223372036854775808) "+x.T+") (<= "+x.T+" 9223372036854775807))", "Bool")
+		case "pre":
+			// pre(e): value of e when the enclosing loop (with a modifies clause) was entered
+			if env.loopPre == nil {
+				sfail("pre() outside a loop that has a modifies clause")
+			}
+			c := env.child()
+			c.cur = env.loopPre
+			return c.tr(args[0])
+		case "freshInLoop":
+			if env.loopBound == "" {
+				sfail("freshInLoop() outside a loop that has a modifies clause")
+			}
+			x := env.tr(args[0])
+			t := x.T
+			if x.Sort == "Slice" {
+				t = "(s_arr " + x.T + ")"
+			}
+			return ghost("(>= "+t+" "+env.loopBound+")", "Bool")
 		case "dyntagOf":
 			// the dynamic-type tag of an open-interface value
 			x := env.tr(args[0])
